@@ -32,7 +32,7 @@ m = {
     "setup_cmd": "./check setup",
     "hooks": {
         "guard": "cargo feature `verif-hooks` (crates/cascette-cache), off by default",
-        "enable": "the harness crate's `hooks` feature enables cascette-cache/verif-hooks for the C11 binary only",
+        "enable": "the harness crate's `hooks` feature enables cascette-cache/verif-hooks for the C11 and C07 binaries only (C07: the existing disk.get.* points, to rewrite a backing file during a validating read)",
         "baseline_off_cmd": "cd /repo && cargo nextest run --workspace --no-fail-fast --tool-config-file pb:/w/lib/nextest.toml --profile pb --test-threads 8 --offline",
         "source_commits": HOOK_COMMITS,
         "add_only": True,
